@@ -416,6 +416,9 @@ def r5_parts_are_isolated_views(rep, src):
     C06.canonical_member_names(src)          # (the private attributes of the member class by role)
     C06.r1_bounded_reads(Proxy(rep, 'C07.R5'), src)
     C06.r2_position_discipline(Proxy(rep, 'C07.R5'), src)
+    # the member set the part checks see is the archive's: the walk lists EVERY member (an empty one too, and what follows it) and
+    # answers a repeated name with its last member -- "more than one candidate for a part" is decided on that list
+    C06.r6b_walk_by_interpretation(Proxy(rep, 'C07.R5'), src)
 
 
 def r7_parts_own_their_cursor(rep, src):
